@@ -15,8 +15,20 @@ def nontrivial(impl):
 
 CHECK = ScenarioCheck(
     "C03", ["SimVerif.Props.C03"], "kernel", gen.generate, spec_c03, nontrivial,
-    "same generator as C02 (random reactive kernel programs + exhaustive op sequences on 2 timers incl. equal/past/re-armed expiries, cancel before/after wait, destroy); compared label by label with the Lean mechanism model and, independently, against the reference asio-waitable-timer contract (specs/kernel.py); non-trivial = >=2 completions and at least one (re)arm or cancel; distinct = distinct implementation trace",
+    "same generator as C02 (random reactive kernel programs + exhaustive op sequences on 2 timers incl. equal/past/re-armed expiries, cancel before/after wait, destroy; waits pending together with tied expiries in every arm/wait order, exhaustive suffixes after a tie prefix); compared label by label with the Lean mechanism model and, independently, against the reference asio-waitable-timer contract (specs/kernel.py); non-trivial = >=2 completions and at least one (re)arm or cancel; distinct = distinct implementation trace",
     TRUSTED, ASSUME)
+
+def _extra_cov(results):
+    tot, scn = {}, {}
+    for i, r in results.items():
+        try: st = spec.check_lines(r["impl"] or [])[2]
+        except Exception: continue
+        for k, v in st.items():
+            tot[k] = tot.get(k, 0) + v
+            if v: scn[k] = scn.get(k, 0) + 1
+    return dict(monitor_counters=tot, monitor_counters_scenarios=scn)
+
+CHECK.extra_cov = _extra_cov
 
 def run(tier, seed, replay):
     return CHECK.run(tier, seed, replay)
